@@ -705,6 +705,42 @@ func nonNegValue(v ssa.Value, seen map[ssa.Value]bool, depth int) bool {
 			if sizeField(fa) {
 				return true
 			}
+			// an index kept in a field of a first-party record (scan.shortest): non-negative if every value the package
+			// ever stores into that field is, the field is never written whole-record-wise with something unknown, and its
+			// address goes nowhere else (the zero value of a fresh record is fine)
+			if pt, ok := fa.X.Type().Underlying().(*types.Pointer); ok && depth < 3 {
+				if st, ok := pt.Elem().Underlying().(*types.Struct); ok && fa.Field < st.NumFields() && firstPartyType(pt.Elem()) && isIntType(st.Field(fa.Field).Type()) {
+					fs := storesIntoField(st.Field(fa.Field), x.Parent())
+					// (copies of whole records carry the invariant along: every record of the type got its field from one
+					// of these stores or from the zero value)
+					if !fs.escapes && len(fs.vals) > 0 {
+						all := true
+						for _, sv := range fs.vals {
+							if nonNegValue(sv, seen, depth+1) {
+								continue
+							}
+							// otherwise ask the prover of the storing function, at the store
+							proved := false
+							if proveNonNegHook != nil && sv.Referrers() != nil {
+								for _, r := range *sv.Referrers() {
+									if stI, ok := r.(*ssa.Store); ok && stI.Val == sv {
+										if _, isFA := stI.Addr.(*ssa.FieldAddr); isFA && proveNonNegHook(sv, stI) {
+											proved = true
+										}
+									}
+								}
+							}
+							if !proved {
+								all = false
+								break
+							}
+						}
+						if all {
+							return true
+						}
+					}
+				}
+			}
 			// a field of a local record that was assigned the result of a helper as a whole
 			if al, ok := fa.X.(*ssa.Alloc); ok && al.Referrers() != nil {
 				any := false
@@ -2188,6 +2224,10 @@ type boundSite struct {
 	Pos  token.Pos
 }
 
+// proveNonNegHook: lets the syntactic non-negativity test ask the difference-constraint prover about a value at a point
+// of the function that computes it (set up by newProver; guarded against re-entry).
+var proveNonNegHook func(v ssa.Value, at ssa.Instruction) bool
+
 func (c *C) newProver(fn *ssa.Function) *bprover {
 	if paramNonNegHook == nil || c.hookOwner != c {
 		c.hookOwner = c
@@ -2207,6 +2247,19 @@ func (c *C) newProver(fn *ssa.Function) *bprover {
 				}
 			}
 			return false
+		}
+	}
+	if proveNonNegHook == nil || c.hookOwner2 != c {
+		c.hookOwner2 = c
+		busyV := map[ssa.Value]bool{}
+		proveNonNegHook = func(v ssa.Value, at ssa.Instruction) bool {
+			if busyV[v] || len(busyV) > 2 || at.Parent() == nil {
+				return false
+			}
+			busyV[v] = true
+			defer delete(busyV, v)
+			pr := c.newProver(at.Parent())
+			return pr.ProveLE(lt{"0", 0}, pr.lin(v), 0, at)
 		}
 	}
 	p := &bprover{c: c, fn: fn, vals: map[string]ssa.Value{}}
@@ -4938,4 +4991,75 @@ func stableBool(v ssa.Value) (string, bool) {
 func isStringType(t types.Type) bool {
 	b, ok := t.Underlying().(*types.Basic)
 	return ok && b.Info()&types.IsString != 0
+}
+
+// recordStoredWhole: somewhere in the package a value of struct type t that is not a composite literal built in place is
+// stored over a whole record (*p = other): the fields of such records are not only what the field stores say.
+var recordWholeMemo = map[types.Type]bool{}
+
+func recordStoredWhole(t types.Type, from *ssa.Function) bool {
+	if r, ok := recordWholeMemo[t]; ok {
+		return r
+	}
+	recordWholeMemo[t] = true
+	if from == nil || from.Pkg == nil {
+		return true
+	}
+	res := false
+	var fns []*ssa.Function
+	var add func(f *ssa.Function)
+	add = func(f *ssa.Function) {
+		fns = append(fns, f)
+		for _, a := range f.AnonFuncs {
+			add(a)
+		}
+	}
+	for _, m := range from.Pkg.Members {
+		switch x := m.(type) {
+		case *ssa.Function:
+			add(x)
+		case *ssa.Type:
+			for _, tt := range []types.Type{x.Type(), types.NewPointer(x.Type())} {
+				ms := from.Prog.MethodSets.MethodSet(tt)
+				for i := 0; i < ms.Len(); i++ {
+					if f := from.Prog.MethodValue(ms.At(i)); f != nil && f.Pkg == from.Pkg {
+						add(f)
+					}
+				}
+			}
+		}
+	}
+	seen := map[*ssa.Function]bool{}
+	for _, f := range fns {
+		if seen[f] {
+			continue
+		}
+		seen[f] = true
+		for _, b := range f.Blocks {
+			for _, in := range b.Instrs {
+				st, ok := in.(*ssa.Store)
+				if !ok {
+					continue
+				}
+				pt, ok := st.Addr.Type().Underlying().(*types.Pointer)
+				if !ok || !types.Identical(pt.Elem(), t) {
+					continue
+				}
+				switch v := st.Val.(type) {
+				case *ssa.UnOp:
+					// *p = *q where q is a literal built field by field in this function is fine
+					if al, ok := v.X.(*ssa.Alloc); ok && al.Comment == "complit" {
+						continue
+					}
+					res = true
+				case *ssa.Const:
+					// the zero record
+				default:
+					res = true
+				}
+			}
+		}
+	}
+	recordWholeMemo[t] = res
+	return res
 }
